@@ -74,7 +74,7 @@ pub open spec fn callee_is_procedure(vm: Vm) -> bool {
 /// Only the arithmetic consequences are required (slot *types* are checked by the code itself, which fails with an error otherwise).
 pub open spec fn tcall_frame(vm: Vm) -> bool {
     let s = vm.stack_spec(); let bp = vm.regs().2 as int; let sp = s.sp_spec() as int;
-    &&& s.wf() && s.cells().len() <= i64::MAX / 4
+    &&& s.wf()
     &&& bp + 4 < s.cells().len()
     &&& (argc_at(s, sp) matches Some(n) ==> bp + 5 + n <= sp)
     &&& (argc_at(s, bp + 1) matches Some(m) ==> m <= bp)
@@ -162,7 +162,7 @@ pub open spec fn frame_popped(old: Vm, new: Vm) -> bool {
 /// what the instruction requires of the machine: a well-formed stack that can still double; for TCALL the frame layout;
 /// for a continuation callee a well-formed capture no longer than the running stack (stacks never shrink: whole-history fact)
 pub open spec fn call_ready(vm: Vm) -> bool {
-    &&& vm.stack_spec().wf() && vm.stack_spec().cells().len() <= i64::MAX / 4
+    &&& vm.stack_spec().wf()
     &&& (next_op(vm) is TCallAcc ==> tcall_frame(vm))
     &&& (next_op(vm) is VarArg ==> vararg_frame(vm))
     &&& (next_op(vm) is Ret ==> ret_frame(vm))
@@ -202,7 +202,7 @@ UNITS = [{
                         (P, '(r is Ok && next_op(*old(self)) is Ret) ==> frame_popped(*old(self), *final(self))'),
                         (P, '(r is Ok && next_op(*old(self)) is VarArg) ==> vararg_normalised(*old(self), *final(self))'),
                         (['C05'], '(r is Ok && (next_op(*old(self)) is CallAcc || next_op(*old(self)) is TCallAcc)) ==> (callee_continuation(*old(self)) matches Some(c) ==> continuation_invoked(*old(self), *final(self), c))')],
-            'body_start': 'proof { axiom_into_self(); axiom_cow_cell_ref(&old(self).acc_spec()); }',
+            'body_start': 'proof { axiom_into_self(); axiom_cow_cell_ref(&old(self).acc_spec()); crate::vm::stack::axiom_stack_len(old(self).stack_spec()); }',
             'loop_count': 3,
             'loop_iter': {0: 'it0', 1: 'it1', 2: 'it2'},
             'loops': {
